@@ -197,3 +197,107 @@ package vaa
 //@   requires v != nil
 //@   modifies fresh lib:bytes.Buffer.b
 //@   nopanic
+
+// ---------------------------------------------------------------- governance payloads (C15)
+// Module ids, action ids, field offsets and total sizes (ral_*) are extracted on every run
+// from governance.ral and token_bridge_governance.ral by /verif/specs/xlang.
+
+//@ func (b BodyUpdateMessageFee) Serialize() (out []byte)
+//@   props C15
+//@   ensures [header] ral_is_core_module(out) && out[32] == ral_core_action_NewMessageFee
+//@   ensures [fee] len(out) == ral_setMessageFee_fee_off + len(b.NewMessageFee) && (forall j in 0..len(b.NewMessageFee) :: out[ral_setMessageFee_fee_off + j] == b.NewMessageFee[j])
+//@   modifies fresh lib:bytes.Buffer.b
+//@   nopanic
+
+//@ func (b BodyTransferFee) Serialize() (out []byte)
+//@   props C15
+//@   ensures [header] ral_is_core_module(out) && out[32] == ral_core_action_TransferFee
+//@   ensures [fields] len(out) == ral_transferFees_amount_off + len(b.Amount) + len(b.Recipient) && (forall j in 0..len(b.Amount) :: out[ral_transferFees_amount_off + j] == b.Amount[j]) && (forall j in 0..len(b.Recipient) :: out[ral_transferFees_amount_off + len(b.Amount) + j] == b.Recipient[j])
+//@   modifies fresh lib:bytes.Buffer.b
+//@   nopanic
+
+//@ func (b BodyContractUpgrade) Serialize() (out []byte)
+//@   props C15
+//@   ensures [header] ral_is_core_module(out) && out[32] == ral_core_action_ContractUpgrade
+//@   ensures [payload] len(out) == 33 + len(b.Payload) && (forall j in 0..len(b.Payload) :: out[33 + j] == b.Payload[j])
+//@   modifies fresh lib:bytes.Buffer.b
+//@   nopanic
+
+//@ func (b BodyGuardianSetUpgrade) Serialize() (out []byte)
+//@   props C15
+//@   requires [count-fits-one-byte] len(b.Keys) <= 255
+//@   ensures [header] ral_is_core_module(out) && out[32] == ral_core_action_NewGuardianSet
+//@   ensures [index] be32at(out, ral_newGuardianSet_newGuardianSetIndex_off) == b.NewIndex && out[ral_newGuardianSet_newGuardianSetSize_off] == len(b.Keys)
+//@   ensures [size] len(out) == ral_newGuardianSet_size_base + ral_newGuardianSet_size_per * len(b.Keys)
+//@   ensures [keys] forall k in 0..len(b.Keys) :: forall j in 0..20 :: out[38 + 20*k + j] == at20(b.Keys[k], j)
+//@   modifies fresh lib:bytes.Buffer.b
+//@   nopanic
+//@   loop [range b.Keys]:
+//@     invariant [buf] isBuffer(buf) && allocated(buf) && fresh(buf) && unchangedExcept("lib:bytes.Buffer.b", buf)
+//@     invariant [len] len(bufOf(buf)) == 38 + 20*$i
+//@     invariant [prefix] ral_is_core_module(bufOf(buf)) && bufOf(buf)[32] == 2 && be32at(bufOf(buf), 33) == b.NewIndex && bufOf(buf)[37] == len(b.Keys)
+//@     invariant [keys] forall k in 0..$i :: forall j in 0..20 :: bufOf(buf)[38 + 20*k + j] == at20(b.Keys[k], j)
+
+//@ func (r BodyTokenBridgeRegisterChain) Serialize() (out []byte)
+//@   props C15
+//@   requires [module-fits] len(r.Module) <= 32
+//@   ensures [module] (forall i in 0..32-len(r.Module) :: out[i] == 0) && (forall j in 0..len(r.Module) :: out[32 - len(r.Module) + j] == str2bytes(r.Module)[j])
+//@   ensures [action] out[32] == ral_tb_action_RegisterChain
+//@   ensures [chain] be16at(out, ral_registerChain_remoteChainId_off) == r.ChainID
+//@   ensures [emitter] forall j in 0..32 :: out[ral_registerChain_remoteTokenBridgeId_off + j] == at32(r.EmitterAddress, j)
+//@   ensures [size] len(out) == ral_registerChain_size_base
+//@   modifies fresh lib:bytes.Buffer.b
+//@   nopanic
+//@   loop [i < (32 - len(r.Module))]:
+//@     invariant [buf] isBuffer(buf) && allocated(buf) && fresh(buf) && unchangedExcept("lib:bytes.Buffer.b", buf)
+//@     invariant [zeros] 0 <= i && i <= 32 - len(r.Module) && len(bufOf(buf)) == i && (forall k in 0..i :: bufOf(buf)[k] == 0)
+
+//@ func (r BodyTokenBridgeUpgradeContract) Serialize() (out []byte)
+//@   props C15
+//@   requires [module-fits] len(r.Module) <= 32
+//@   ensures [module] (forall i in 0..32-len(r.Module) :: out[i] == 0) && (forall j in 0..len(r.Module) :: out[32 - len(r.Module) + j] == str2bytes(r.Module)[j])
+//@   ensures [action] out[32] == ral_tb_action_ContractUpgrade
+//@   ensures [payload] len(out) == 33 + len(r.Payload) && (forall j in 0..len(r.Payload) :: out[33 + j] == r.Payload[j])
+//@   modifies fresh lib:bytes.Buffer.b
+//@   nopanic
+//@   loop [i < (32 - len(r.Module))]:
+//@     invariant [buf] isBuffer(buf) && allocated(buf) && fresh(buf) && unchangedExcept("lib:bytes.Buffer.b", buf)
+//@     invariant [zeros] 0 <= i && i <= 32 - len(r.Module) && len(bufOf(buf)) == i && (forall k in 0..i :: bufOf(buf)[k] == 0)
+
+//@ func (b BodyTokenBridgeDestroyContracts) Serialize() (out []byte)
+//@   props C15
+//@   requires [count-fits-two-bytes] len(b.Sequences) <= 65535
+//@   ensures [header] ral_is_tb_module(out) && out[32] == ral_tb_action_DestroyUnexecutedSequences
+//@   ensures [chain] be16at(out, ral_destroySequences_remoteChainIdBytes_off) == b.EmitterChain
+//@   ensures [count] be16at(out, ral_destroySequences_length_off) == len(b.Sequences)
+//@   ensures [size] len(out) == ral_destroySequences_size_base + ral_destroySequences_size_per * len(b.Sequences)
+//@   ensures [sequences] forall k in 0..len(b.Sequences) :: be64at(out, 37 + 8*k) == b.Sequences[k]
+//@   modifies fresh lib:bytes.Buffer.b
+//@   nopanic
+//@   loop [range b.Sequences]:
+//@     invariant [buf] isBuffer(buf) && allocated(buf) && fresh(buf) && unchangedExcept("lib:bytes.Buffer.b", buf)
+//@     invariant [len] len(bufOf(buf)) == 37 + 8*$i
+//@     invariant [prefix] ral_is_tb_module(bufOf(buf)) && bufOf(buf)[32] == 240 && be16at(bufOf(buf), 33) == b.EmitterChain && be16at(bufOf(buf), 35) == len(b.Sequences)
+//@     invariant [sequences] forall k in 0..$i :: be64at(bufOf(buf), 37 + 8*k) == b.Sequences[k]
+
+//@ func (b BodyTokenBridgeUpdateMinimalConsistencyLevel) Serialize() (out []byte)
+//@   props C15
+//@   ensures [header] ral_is_tb_module(out) && out[32] == ral_tb_action_UpdateMinimalConsistencyLevel
+//@   ensures [level] out[ral_minConsistency_consistencyLevel_off] == b.NewConsistencyLevel && len(out) == ral_minConsistency_size_base
+//@   modifies fresh lib:bytes.Buffer.b
+//@   nopanic
+
+//@ func (b BodyTokenBridgeUpdateRefundAddress) Serialize() (out []byte)
+//@   props C15
+//@   requires [length-fits-two-bytes] len(b.NewRefundAddress) <= 65535
+//@   ensures [header] ral_is_tb_module(out) && out[32] == ral_tb_action_UpdateRefundAddress
+//@   ensures [length] be16at(out, ral_refundAddress_addressSize_off) == len(b.NewRefundAddress)
+//@   ensures [address] len(out) == ral_refundAddress_size_base + ral_refundAddress_size_per * len(b.NewRefundAddress) && (forall j in 0..len(b.NewRefundAddress) :: out[35 + j] == b.NewRefundAddress[j])
+//@   modifies fresh lib:bytes.Buffer.b
+//@   nopanic
+
+//@ func CreateGovernanceVAA(governanceChainId ChainID, governanceEmitterAddress Address, timestamp time.Time, nonce uint32, sequence uint64, targetChain ChainID, guardianSetIndex uint32, payload []byte) (v *VAA)
+//@   props C15
+//@   ensures [envelope] v != nil && fresh(v) && v.Version == 1 && v.GuardianSetIndex == guardianSetIndex && len(v.Signatures) == 0 && v.Timestamp == timestamp && v.Nonce == nonce && v.Sequence == sequence && v.ConsistencyLevel == 32 && v.EmitterChain == governanceChainId && v.TargetChain == targetChain && v.EmitterAddress == governanceEmitterAddress && v.Payload == payload
+//@   modifies fresh VAA.*
+//@   nopanic
